@@ -2,6 +2,7 @@ import StepModel.Sev
 import StepModel.P21.Val
 import StepModel.Generated.StepFileGen
 import StepModel.Generated.InstMgrGen
+import StepModel.Generated.ThreadingGen
 /-!
 A STEPfile session at the level C14 and C16 talk about: the instance manager as the list of (instance, state) in
 insertion order plus `maxFileId`, and the two-pass reader of `STEPfile::AppendFile` (src/cleditor/STEPfile.cc):
@@ -81,35 +82,67 @@ def pass1Step (ft : FileType) (k : Int) (s : Sess) (e : Entry) : Sess :=
 
 def pass1 (ft : FileType) (k : Int) (s : Sess) (es : List Entry) : Sess := es.foldl (pass1Step ft k) s
 
-/-- `ReadEntityRef` with `addFileId = k` applied at every depth: value and "every reference resolved" -/
-def resolveVal (ns : List Node) (k : Int) : Val → Val × Bool
-  | .null => (.null, true)
-  | .derived => (.derived, true)
-  | .tok s => (.tok s, true)
-  | .ref r => if (find ns (r + k)).isSome then (.ref (r + k), true) else (.null, false)
-  | .typed n v => let (v', ok) := resolveVal ns k v; (.typed n v', ok)
-  | .aggr e => let (e', ok) := resolveVal ns k e; (.aggr e', ok)
-  | .nil => (.nil, true)
-  | .cons h t =>
-    let (h', ok₁) := resolveVal ns k h
-    let (t', ok₂) := resolveVal ns k t
-    (.cons h' t', ok₁ && ok₂)
+/-- where a value stands while it is read -/
+inductive Ctx where
+  | top        -- directly in the attribute
+  | inAggr     -- element of an aggregate
+  | inSelect   -- content of a select value
+  deriving DecidableEq, Repr
 
-def resolveVals (ns : List Node) (k : Int) : List Val → List Val × Bool
+/-- the increment after a call site that hands it on (`b`) or does not -/
+def thr (b : Bool) (k : Int) : Int := if b then k else 0
+
+/-- the way of the file id increment from the attribute down to `ReadEntityRef`, site by site (`T`; the code's is `Generated.threading`,
+    regenerated from the source): value and "every reference resolved" -/
+def resolveValT (T : Threading) (ns : List Node) : Ctx → Int → Val → Val × Bool
+  | _, _, .null => (.null, true)
+  | _, _, .derived => (.derived, true)
+  | _, _, .tok s => (.tok s, true)
+  | c, k, .ref r =>
+    let k1 := thr (match c with
+                   | .top => T.attrRef | .inAggr => T.aggrEntityElem | .inSelect => T.selectRef) k
+    let k2 := thr T.refAdd k1
+    if (find ns (r + k2)).isSome then (.ref (r + k2), true) else (.null, false)
+  | _, k, .typed n v => let (v', ok) := resolveValT T ns .inSelect (thr T.selectContent k) v; (.typed n v', ok)
+  | c, k, .aggr e =>
+    let (e', ok) := resolveValT T ns .inAggr (match c with | .top => thr T.attrAggr k | _ => k) e
+    (.aggr e', ok)
+  | _, _, .nil => (.nil, true)
+  | c, k, .cons h t =>
+    let (h', ok₁) := resolveValT T ns c k h
+    let (t', ok₂) := resolveValT T ns c k t
+    (.cons h' t', ok₁ && ok₂)
+  | c, k, .via .select v =>
+    let (v', ok) := resolveValT T ns .inSelect
+      (thr (match c with | .inAggr => T.aggrSelectElem | _ => T.attrSelect) k) v
+    (.via .select v', ok)
+  | c, k, .via .redecl v => let (v', ok) := resolveValT T ns c (thr T.redef k) v; (.via .redecl v', ok)
+
+def resolveValsT (T : Threading) (ns : List Node) (k : Int) : List Val → List Val × Bool
   | [] => ([], true)
   | v :: vs =>
-    let (v', ok₁) := resolveVal ns k v
-    let (vs', ok₂) := resolveVals ns k vs
+    let (v', ok₁) := resolveValT T ns .top (thr T.instAttr k) v
+    let (vs', ok₂) := resolveValsT T ns k vs
     (v' :: vs', ok₁ && ok₂)
 
-def resolveParts (ns : List Node) (k : Int) : List Part → List Part × Bool
+/-- `cx`: the instance is complex, its parts are read through `STEPcomplex::STEPread` -/
+def resolvePartsT (T : Threading) (ns : List Node) (cx : Bool) (k : Int) : List Part → List Part × Bool
   | [] => ([], true)
   | p :: ps =>
-    let (vs, ok₁) := resolveVals ns k p.vals
-    let (ps', ok₂) := resolveParts ns k ps
+    let (vs, ok₁) := resolveValsT T ns (if cx then thr T.complexPart k else k) p.vals
+    let (ps', ok₂) := resolvePartsT T ns cx k ps
     ({ p with vals := vs } :: ps', ok₁ && ok₂)
 
+/-- the reader of the code at hand -/
+def resolveVal (ns : List Node) (c : Ctx) (k : Int) (v : Val) : Val × Bool := resolveValT threading ns c k v
+def resolveVals (ns : List Node) (k : Int) (vs : List Val) : List Val × Bool := resolveValsT threading ns k vs
+def resolveParts (ns : List Node) (cx : Bool) (k : Int) (ps : List Part) : List Part × Bool := resolvePartsT threading ns cx k ps
+
 def update (ns : List Node) (id : Int) (n' : Node) : List Node := ns.map (fun n => if n.inst.id = id then n' else n)
+
+/-- the comment in front of an instance reaches `ReadInstance` (→ `AddP21Comment`); in a working-session file it stands
+    after the state letter and is kept iff pass 2 collects it there -/
+def keepComment (ft : FileType) : Bool := match ft with | .exchange => true | .working => wfLetterKeepsComment
 
 /-- `ReadData2`/`ReadInstance` step; `fill` = what the attribute-level reader substitutes (C15), identity in strict mode -/
 def pass2Step (ft : FileType) (fill : Inst → Inst) (asev : Inst → Sev) (k : Int) (s : Sess) (e : Entry) : Sess :=
@@ -120,12 +153,13 @@ def pass2Step (ft : FileType) (fill : Inst → Inst) (asev : Inst → Sev) (k : 
   | some n =>
     if ft = .exchange && n.state ≠ exchangePass1State then s   -- "already exists - ignoring duplicate"
     else
-      let (ps, ok) := resolveParts s.nodes k e.inst.parts
+      let (ps, ok) := resolveParts s.nodes (decide (1 < e.inst.parts.length)) k e.inst.parts
       let sev : Sev := Sev.greater (if ok then .null else .warning) (asev e.inst)
       let st := match ft with
         | .exchange => exchangeStateOf sev
         | .working => if workingReadKeepsState then n.state else exchangeStateOf sev
-      { s with nodes := update s.nodes fid ⟨fill { id := fid, parts := ps }, st⟩ }
+      let cm : String := if keepComment ft then e.inst.comment else ""
+      { s with nodes := update s.nodes fid ⟨fill { id := fid, parts := ps, comment := cm }, st⟩ }
 
 def pass2 (ft : FileType) (fill : Inst → Inst) (asev : Inst → Sev) (k : Int) (s : Sess) (es : List Entry) : Sess :=
   es.foldl (pass2Step ft fill asev k) s
@@ -153,5 +187,33 @@ def writeExchange (s : Sess) : List Inst := s.nodes.map (·.inst)
 /-- `WriteWorkingData`: letter + instance; nodes without state information are not written -/
 def writeWorking (s : Sess) : List Entry :=
   s.nodes.filterMap (fun n => (writeLetterOf n.state).map (fun c => ⟨some c, n.inst⟩))
+
+/-! ### the whole file: header section and `writeComments` -/
+
+/-- a saved file: the header entities (opaque texts, FILE_NAME's time stamp left out) and the DATA entries -/
+structure WFile where
+  header : List String
+  entries : List Entry
+  deriving DecidableEq, Repr
+
+/-- a STEPfile: its instance manager and its header instances -/
+structure FSess where
+  sess : Sess
+  header : List String
+  deriving Repr
+
+/-- `STEPwrite( out, currSch, writeComments )`: the comment is written only when asked for -/
+def stripComment (wc : Bool) (i : Inst) : Inst := if wc then i else { i with comment := "" }
+
+/-- `STEPfile::HeaderMergeInstances` -/
+def mergeHeader (old new : List String) : List String := if old.length < headerReplaceBelow then new else old
+
+/-- `WriteWorkingFile( name, clearError, writeComments )` -/
+def writeWorkingFile (wc : Bool) (s : FSess) : WFile :=
+  ⟨s.header, (writeWorking s.sess).map (fun e => { e with inst := stripComment wc e.inst })⟩
+
+/-- `ReadWorkingFile` into a STEPfile that may have read other files before -/
+def readWorkingFile (fill : Inst → Inst) (asev : Inst → Sev) (prev : FSess) (f : WFile) : FSess :=
+  ⟨readWorking fill asev f.entries, mergeHeader (if readWorkingClearsHeader then [] else prev.header) f.header⟩
 
 end StepModel.Session
